@@ -1101,7 +1101,7 @@ def check_checkpoint_priorities(prog, rep):
             elif what == 'measure':
                 meas_p = (val, c)
     if save_p is None or meas_p is None:
-        raise AnalysisError('checkpoint listeners for saving / measuring not found')
+        return 0        # RESUME-checkpoint-connected reports a missing listener
     ok = meas_p[0] > save_p[0]
     rep.instance('RESUME-checkpoint-priority', {'measure_priority': meas_p[0],
                                                 'save_priority': save_p[0], 'ok': ok})
